@@ -185,6 +185,7 @@ class Ctx {
     return std::chrono::duration<double>(std::chrono::steady_clock::now() - t0).count();
   }
   bool expired() {
+    if (journal_ && (++expiredCalls_ & 0xFFF) == 0) memcpy(journal_ + 4080, &expiredCalls_, 8);
     if (deadline > 0 && elapsed() > deadline) {
       complete = false;
       return true;
@@ -195,6 +196,7 @@ class Ctx {
   // Is the next generated case ours?  Always advances the global case index.
   bool take() {
     uint64_t i = index++;
+    if (journal_ && (i & 0xFFFF) == 0) memcpy(journal_ + 4088, &i, 8);  // heartbeat: the generator is alive even when no case is ours
     if (only >= 0) return int64_t(i) == only;
     if (i < from) return false;
     return int(i % uint64_t(nshards)) == shard;
@@ -203,6 +205,7 @@ class Ctx {
   // emit the same case twice: duplicates land in the same shard)
   bool takeByHash(uint64_t h) {
     uint64_t i = index++;
+    if (journal_ && (i & 0xFFFF) == 0) memcpy(journal_ + 4088, &i, 8);
     if (only >= 0) return int64_t(i) == only;
     if (i < from) return false;
     return int(h % uint64_t(nshards)) == shard;
@@ -345,6 +348,7 @@ class Ctx {
  private:
   static constexpr size_t kJournalMax = 3900;
   char* journal_ = nullptr;
+  uint64_t expiredCalls_ = 0;
 
   void openJournal() {
     int fd = open(journalPath.c_str(), O_RDWR | O_CREAT, 0644);
